@@ -313,7 +313,7 @@ impl FixedStructReader {
 //@spec
     requires self.wf()
     ensures r as int == (fileoffset as int / self.fixedstruct_type.esz()) * self.fixedstruct_type.esz()
-//@before "(fileoffset / self.fixedstruct_size_fo())"
+//@at_entry
         proof {
             lemma_fundamental_div_mod(fileoffset as int, self.fixedstruct_type.esz());
             lemma_mod_bound(fileoffset as int, self.fixedstruct_type.esz());
@@ -466,7 +466,7 @@ impl FixedStructReader {
                 assert(slice_@.subrange(0, tv_sz as int) =~= slice_@);
             }
             assert(tv_of(ft, slice_@) == rec_tv(file0, ft, j));
-//@after "map_tv_pair_fo.insert((tv_pair, fo), fo);"
+//@after "map_tv_pair_fo.insert("
             proof {
                 assert(in_s(file0, ft, tv_filter_after, tv_filter_before, j));
                 assert(key_of(file0, ft, j) == (tv_pair, fo));
